@@ -246,10 +246,10 @@ class Program:
         self.sfields = fields_of(self.sroot)
         self.size = len(self.sfields)
 
-    def find_matches(self, pattern):
+    def find_matches(self, pattern, use_previous=None):
         if self.setup == "code":
-            return find_matches(pattern, student_code=self.code, report=self.report)
-        return find_matches(pattern, report=self.report)
+            return find_matches(pattern, student_code=self.code, report=self.report, use_previous=use_previous)
+        return find_matches(pattern, report=self.report, use_previous=use_previous)
 
     def find_match(self, pattern):
         from pedal.cait.cait_api import find_match
@@ -265,6 +265,8 @@ class RealRun:
           "node":         CaitNode.find_matches on the already parsed root (use_previous=False)
           "sub":          CaitNode.find_matches on the node `anchor` (a path), which was obtained from the
                           parent match as parent_match[key]; use_previous as given
+          "prev":         pedal.cait.cait_api.find_matches(pattern, ..., use_previous=parent) over the WHOLE program,
+                          inheriting the AstMap `parent` of an earlier match
     """
 
     def __init__(self, pattern, program, api="find_matches", anchor=(), parent=None, key=None, use_previous=False):
@@ -288,7 +290,9 @@ class RealRun:
         self.ptree = tree_of(proot, (), {})
         self.penc = enc_tree(self.ptree)
         multi = len(ptop.body) != 1
-        if api == "find_matches":
+        if api == "prev":
+            self.use_previous = use_previous = True
+        if api in ("find_matches", "prev"):
             self.snode = program.sroot
             self.stree, self.senc, sindex = program.stree, program.senc, program.sindex
         else:
@@ -306,6 +310,8 @@ class RealRun:
                 first = program.find_match(pattern)
                 if (first is None) != (not raw) or (raw and canon_shape(first) != canon_shape(raw[0])):
                     self.first_differs = True
+            elif api == "prev":
+                raw = program.find_matches(pattern, use_previous=parent)
             else:
                 raw = self.snode.find_matches(pattern, is_mod=multi, use_previous=use_previous)
         except RecursionError:
@@ -339,7 +345,7 @@ class RealRun:
     @property
     def compare_model(self):
         """the Lean port models use_previous=None only"""
-        return not (self.api == "sub" and self.use_previous)
+        return not (self.api in ("sub", "prev") and self.use_previous)
 
     def embed_matches(self):
         """the matches as given to the embedding checker.  A sub-match that inherited its parent's map is
@@ -530,6 +536,25 @@ SUB_CORPUS = [
     ("for _i_ in ___:\n    __e__", "for k in d:\n    print(k, j)", "__e__", "print(_i_, ___)", None),
     ("def _f_(_a_):\n    __e__", "def g(x):\n    return g(x - 1)", "__e__", "_f_(___)", None),
     ("print(__e__)", "print(a.b(c))", "__e__", "a.b(c)", {}),
+    # a placeholder the inherited match bound to the SAME identifier (pedal's test_use_previous, last case)
+    ("for _i_ in ___:\n    __e__", "for k in d:\n    print(k)", "__e__", "print(_i_)", {"_i_": "k"}),
+    ("for _i_ in ___:\n    __e__", "for k in d:\n    n = n + k", "__e__", "_s_ = _s_ + _i_", {"_i_": "k", "_s_": "n"}),
+    # an __expr__ NAME the inherited match has already bound is used again by the sub-pattern (as pedal's
+    # test_use_previous does with '_var2_[__expr__]'): it stands for the sub-expression it replaced
+    ("for _var_ in ___:\n    if __expr__ == ___:\n        pass",
+     'for reports in weather_reports:\n    if reports["Station"]["City"] == "Chicago":\n        trend.append(reports["Data"])',
+     "__expr__", "_v2_[__expr__]", {"_v2_": "reports", "__expr__": "'Station'"}),
+    ("_v_ = __e__", "x = f(a + b, c)", "__e__", "f(__e__, c)", {"__e__": "a + b"}),
+    ("_v_ = __e__", "x = f(a + b, c)", "__e__", "___(__e__, ___)", {"__e__": "a + b"}),
+    ("_v_ = __e__", "x = a[b][c]", "__e__", "__e__[c]", {"__e__": "a[b]"}),
+    ("_v_ = __e__", "x = a[b][c]", "__e__", "_w_[__e__]", {"_w_": "a", "__e__": "b"}),
+    ("_v_ = __e__", "x = (a + b) - c", "__e__", "__e__ - c", {"__e__": "a + b"}),
+    ("_v_ = __e__", "x = (a + b) * c", "__e__", "___ * __e__", {"__e__": "c"}),
+    ("_v_ = __e__", "x = (a + b) * c", "__e__", "__e__ * c", {"__e__": "a + b"}),
+    ("_v_ = __e__", "x = 1 + a[b]", "__e__", "__e__[b] + 1", {"__e__": "a"}),
+    ("_v_ = __e__", "x = [y.z, (a + b) * c]", "__e__", "[___, __e__ * c]", {"__e__": "a + b"}),
+    ("for _i_ in ___:\n    __e__", "for k in d:\n    print(k + 1)", "__e__", "print(__e__)", {"__e__": "k + 1"}),
+    ("if __e__:\n    __f__", "if a < b:\n    t = a", "__f__", "_t_ = __e__", {"_t_": "t", "__e__": "a"}),
 ]
 
 
@@ -652,6 +677,85 @@ class Gen:
     def program(self):
         n = self.rng.randint(1, 4)
         src = "".join(self.stmt(0, 0) for _ in range(n))
+        ast.parse(src)
+        return src
+
+
+# statement shapes with identifier slots: two statements made from the same shape with different identifiers
+# match the same pattern statement SHALLOWLY but bind its placeholders differently (decoys of each other)
+DECOY_SLOT = ["{v} = 0", "{v} = {k}", "print({v})", "{v} += 1", "{v} = {v} + {w}", "{v}.append({w})", "{f}({v})",
+              "{v} = {f}({w})", "{v} = []", "{v} = {w}", "print({v}, {w})", "{v} = {v} * {k}", "{v}[{k}] = {w}",
+              "{v} = {w}.val", "{f}({v}, {v})", "{v} = {f}()", "{v}.get()", "return {v}", "{v} = {w} if {v} else {k}",
+              "for {v} in {w}:\n    print({v})", "if {v} < {k}:\n    {v} = {k}", "while {v}:\n    {v} -= 1",
+              "for {v} in {w}:\n    {w} = {v}\n    {f}({v})", "if {v}:\n    print({v})\nelse:\n    print({w})",
+              "def {f}({v}):\n    return {v}", "with {f}() as {v}:\n    {v}.get()"]
+DECOY_FIXED = ["c = 1", "pass", "done()", "print('end')", "c += 1", "import m", "c = [1, 2]", "global c"]
+DECOY_IDS = ["a", "b", "t"]
+DECOY_WRAP = ["{B}", "{B}", "def main():\n{I}", "for i in r:\n{I}", "if c:\n    z = 1\nelse:\n{I}", "while c:\n{I}",
+              "try:\n{I}finally:\n    z = 1\n", "try:\n    z = 1\nfinally:\n{I}", "class K:\n{I}",
+              "if c:\n{I}", "for i in r:\n    z = 1\nelse:\n{I}", "def main(c):\n    if c:\n{II}"]
+
+
+def _indent(src, n):
+    pad = "    " * n
+    return "".join(pad + line + "\n" for line in src.rstrip("\n").split("\n"))
+
+
+class DecoyGen:
+    """Programs in which several statements of one body have the same shape and differ only in identifiers,
+    interleaved: k instances of one template (2-4 slot statements sharing a variable), merged at random with
+    each instance's order kept, plus fixed statements between them.  A pattern that keeps one instance (the
+    others dropped, the variable replaced by a placeholder) has to keep several partial matches with different
+    bindings alive and to discard the mixed ones."""
+
+    def __init__(self, rng):
+        self.rng = rng
+
+    def body(self):
+        rng = self.rng
+        ids = DECOY_IDS[:rng.choice([2, 2, 3])]
+        template = []
+        for _ in range(rng.randint(2, 3)):
+            shape = rng.choice(DECOY_SLOT[:18] if rng.random() < 0.7 else DECOY_SLOT)
+            # the same w / k / f for every instance, so that instances differ ONLY in the shared variable
+            template.append((shape, rng.choice(["w", "q"] + ids), rng.choice(["0", "1", "''", "None"]),
+                             rng.choice(["f", "g"])))
+        seqs = []
+        for v in ids:
+            inst = [shape.format(v=v, w=w, k=k, f=f) for shape, w, k, f in template]
+            if rng.random() < 0.25:
+                del inst[rng.randrange(len(inst))]          # an incomplete instance
+            seqs.append(inst)
+        seqs.append([rng.choice(DECOY_FIXED) for _ in range(rng.randint(0, 2))])
+        if rng.random() < 0.3:
+            shape, w, k, f = rng.choice(template)
+            seqs.append([shape.format(v=rng.choice(ids), w=rng.choice(ids), k=k, f=f)])   # one more stray decoy
+        # random merge, each sequence's own order kept
+        out = []
+        seqs = [s for s in seqs if s]
+        while seqs:
+            s = rng.choice(seqs)
+            out.append(s.pop(0))
+            if not s:
+                seqs.remove(s)
+        if rng.random() < 0.15:
+            rng.shuffle(out)
+        return out
+
+    def program(self):
+        rng = self.rng
+        stmts = self.body()
+        wrap = rng.choice(DECOY_WRAP)
+        in_def = wrap.startswith("def ")
+        stmts = [s for s in stmts if in_def or not s.startswith("return")] or ["pass"]
+        stmts = [s for s in stmts if not (s.startswith("global") and not in_def)] or ["pass"]
+        stmts = [s for s in stmts if not (s.startswith("import") and wrap.startswith("class"))] or ["pass"]
+        flat = "".join(s + "\n" for s in stmts)
+        src = wrap.format(B=flat, I=_indent(flat, 1), II=_indent(flat, 2))
+        if rng.random() < 0.3:
+            src = rng.choice(["z = 0\n", "import m\n", "a = 0\n"]) + src
+        if rng.random() < 0.3:
+            src = src + rng.choice(["print(a)\n", "z = 1\n", "b = 0\n"])
         ast.parse(src)
         return src
 
@@ -825,109 +929,303 @@ class Derived:
         return " ".join(out)
 
 
+class _Deriver:
+    """Applies C11's generalisation steps to a structural copy of (a statement of) a program and remembers,
+    for every step, what was replaced (exps / vars) and which program node every pattern node stands for."""
+
+    def __init__(self, rng, code, tree):
+        self.rng = rng
+        self.code = code
+        self.tree = tree
+        self.work = copy_ast(tree)
+        # parallel walk to map copy nodes -> original nodes
+        self.orig_of = {}
+        for a, b in zip(ast.walk(self.work), ast.walk(tree)):
+            self.orig_of[id(a)] = b
+        self.opath = ast_index(tree)
+        self.steps = []
+        self.exps, self.vars = {}, {}
+        self.placeholders = {}      # id -> node (kept alive so that ids stay unique)
+        self.frag = self.work
+        self.base = "program"
+
+    def statements(self):
+        return stmt_positions(self.work)
+
+    def take_statement(self, st):
+        self.frag = ast.Module(body=[st], type_ignores=[])
+        self.base = type(st).__name__
+
+    def step_wild(self, named=None):
+        rng = self.rng
+        cands = [c for c in _child_exprs(self.frag)
+                 if not (isinstance(c[3], ast.Name) and (c[3].id.startswith("_")))]
+        if not cands:
+            return False
+        parent, field, idx, node = rng.choice(cands)
+        if named is None:
+            named = rng.random() >= 0.5
+        if not named:
+            new = ast.Name(id="___", ctx=getattr(node, "ctx", ast.Load()))
+            self.orig_of[id(new)] = self.orig_of[id(node)]
+            self.placeholders[id(new)] = new
+            self.steps.append("wild:" + type(node).__name__)
+        else:
+            key = "__e%d__" % len(self.exps)
+            new = ast.Name(id=key, ctx=getattr(node, "ctx", ast.Load()))
+            o = self.orig_of[id(node)]
+            self.orig_of[id(new)] = o
+            self.placeholders[id(new)] = new
+            # a placeholder that is a whole expression statement stands for the statement: CAIT binds it
+            # to the Expr node, whose only child is the replaced expression
+            alt = self.opath[id(o)][:-1] if isinstance(parent, ast.Expr) else None
+            self.exps[key] = (self.opath[id(o)], ast.unparse(o), alt)
+            self.steps.append("exp:" + type(node).__name__)
+        _set(parent, field, idx, new)
+        return True
+
+    def identifiers(self):
+        frag = self.frag
+        return sorted({n.id for n in ast.walk(frag) if isinstance(n, ast.Name) and not n.id.startswith("_")} |
+                      {n.arg for n in ast.walk(frag) if isinstance(n, ast.arg) and not n.arg.startswith("_")})
+
+    def step_var(self, x=None):
+        frag = self.frag
+        ids = self.identifiers()
+        if not ids:
+            return False
+        if x is None:
+            x = self.rng.choice(ids)
+        key = "_%s_" % x
+        if key in ids or any(getattr(n, "id", None) == key or getattr(n, "arg", None) == key
+                             for n in ast.walk(frag)):
+            return False
+        for n in ast.walk(frag):
+            if isinstance(n, ast.Name) and n.id == x:
+                n.id = key
+            elif isinstance(n, ast.arg) and n.arg == x:
+                n.arg = key
+        self.vars[key] = x
+        self.steps.append("var")
+        return True
+
+    def bodies(self, at_least=2):
+        out = []
+        for n in ast.walk(self.frag):
+            for field in ("body", "orelse", "finalbody"):
+                v = getattr(n, field, None)
+                if isinstance(v, list) and len(v) >= at_least and all(isinstance(s, ast.stmt) for s in v):
+                    out.append(v)
+        return out
+
+    def step_drop(self):
+        bodies = self.bodies()
+        if not bodies:
+            return False
+        b = self.rng.choice(bodies)
+        del b[self.rng.randrange(len(b))]
+        self.steps.append("drop")
+        return True
+
+    def keep_subsequence(self, b, keep):
+        """drop every statement of the list b whose index is not in `keep` (siblings before, BETWEEN and after
+        the kept ones)"""
+        for i in range(len(b) - 1, -1, -1):
+            if i not in keep:
+                del b[i]
+                self.steps.append("drop")
+
+    def finish(self):
+        frag, work, tree, orig_of, opath = self.frag, self.work, self.tree, self.orig_of, self.opath
+        # placeholders that no longer occur (their subtree was replaced / dropped later)
+        present_names = {n.id for n in ast.walk(frag) if isinstance(n, ast.Name)} | \
+                        {n.arg for n in ast.walk(frag) if isinstance(n, ast.arg)}
+        exps = {k: v for k, v in self.exps.items() if k in present_names}
+        vars_ = {k: v for k, v in self.vars.items() if k in present_names}
+        try:
+            pattern = ast.unparse(ast.fix_missing_locations(frag))
+            reparsed = ast.parse(pattern)
+        except Exception:
+            return None
+        # the text must denote the tree we built (unparse/parse is not always the identity, e.g. for
+        # negative constants or implicit tuples): otherwise this is not a C11-derived pattern
+        if ast.dump(reparsed) != ast.dump(frag):
+            return None
+        # which program node every pattern node stands for (the alignment the C11 theorem's checker is given)
+        align = []
+        try:
+            if frag is work:
+                align_trees(frag, tree, (), (), orig_of, self.placeholders, align)
+            else:
+                for i, st in enumerate(frag.body):
+                    o = orig_of[id(st)]
+                    align_trees(st, o, (i,), opath[id(o)], orig_of, self.placeholders, align)
+        except (AlignError, KeyError):
+            align = None
+        return Derived(self.code, pattern, exps, vars_, self.steps, self.base, align)
+
+
 def derive(rng, code, tree, whole=None, max_steps=4):
-    """tree = ast.parse(code) (the ORIGINAL, nodes keep identity through a parallel deep copy)."""
-    work = copy_ast(tree)
-    # parallel walk to map copy nodes -> original nodes
-    orig_of = {}
-    for a, b in zip(ast.walk(work), ast.walk(tree)):
-        orig_of[id(a)] = b
-    opath = ast_index(tree)
-    stmts = stmt_positions(work)
-    steps = []
+    """tree = ast.parse(code) (the ORIGINAL, nodes keep identity through a parallel deep copy).
+    0..max_steps random steps: wildcard / __e__ replacement, consistent renaming, dropping one statement."""
+    dv = _Deriver(rng, code, tree)
+    stmts = dv.statements()
     if whole is None:
         whole = rng.random() < 0.3 or not stmts
-    if whole:
-        frag = work
-        base = "program"
-    else:
+    if not whole:
         st, _ = rng.choice(stmts)
-        frag = ast.Module(body=[st], type_ignores=[])
-        base = type(st).__name__
-    exps, vars_ = {}, {}
-    placeholders = {}       # id -> node (kept alive so that ids stay unique)
+        dv.take_statement(st)
     n_steps = rng.randint(0, max_steps)
     for _ in range(n_steps):
         k = rng.random()
         if k < 0.45:
-            cands = [c for c in _child_exprs(frag)
-                     if not (isinstance(c[3], ast.Name) and (c[3].id.startswith("_")))]
-            if not cands:
-                continue
-            parent, field, idx, node = rng.choice(cands)
-            if rng.random() < 0.5:
-                new = ast.Name(id="___", ctx=getattr(node, "ctx", ast.Load()))
-                orig_of[id(new)] = orig_of[id(node)]
-                placeholders[id(new)] = new
-                steps.append("wild:" + type(node).__name__)
-            else:
-                key = "__e%d__" % len(exps)
-                new = ast.Name(id=key, ctx=getattr(node, "ctx", ast.Load()))
-                o = orig_of[id(node)]
-                orig_of[id(new)] = o
-                placeholders[id(new)] = new
-                # a placeholder that is a whole expression statement stands for the statement: CAIT binds it
-                # to the Expr node, whose only child is the replaced expression
-                alt = opath[id(o)][:-1] if isinstance(parent, ast.Expr) else None
-                exps[key] = (opath[id(o)], ast.unparse(o), alt)
-                steps.append("exp:" + type(node).__name__)
-            _set(parent, field, idx, new)
+            dv.step_wild()
         elif k < 0.80:
-            ids = sorted({n.id for n in ast.walk(frag) if isinstance(n, ast.Name) and not n.id.startswith("_")} |
-                         {n.arg for n in ast.walk(frag) if isinstance(n, ast.arg) and not n.arg.startswith("_")})
-            if not ids:
-                continue
-            x = rng.choice(ids)
-            key = "_%s_" % x
-            if key in ids or any(getattr(n, "id", None) == key or getattr(n, "arg", None) == key
-                                 for n in ast.walk(frag)):
-                continue
-            for n in ast.walk(frag):
-                if isinstance(n, ast.Name) and n.id == x:
-                    n.id = key
-                elif isinstance(n, ast.arg) and n.arg == x:
-                    n.arg = key
-            vars_[key] = x
-            steps.append("var")
+            dv.step_var()
         else:
-            bodies = []
-            for n in ast.walk(frag):
-                for field in ("body", "orelse", "finalbody"):
-                    v = getattr(n, field, None)
-                    if isinstance(v, list) and len(v) >= 2 and all(isinstance(s, ast.stmt) for s in v):
-                        bodies.append(v)
-            if not bodies:
-                continue
-            b = rng.choice(bodies)
-            i = rng.randrange(len(b))
-            del b[i]
-            steps.append("drop")
-    # placeholders that no longer occur (their subtree was replaced / dropped later)
-    present_names = {n.id for n in ast.walk(frag) if isinstance(n, ast.Name)} | \
-                    {n.arg for n in ast.walk(frag) if isinstance(n, ast.arg)}
-    exps = {k: v for k, v in exps.items() if k in present_names}
-    vars_ = {k: v for k, v in vars_.items() if k in present_names}
-    try:
-        pattern = ast.unparse(ast.fix_missing_locations(frag))
-        reparsed = ast.parse(pattern)
-    except Exception:
+            dv.step_drop()
+    return dv.finish()
+
+
+def derive_decoy(rng, code, tree, max_keep=4):
+    """A derivation aimed at programs with DECOY statements: the fragment is the whole program or a compound
+    statement with a long body; in every statement list a random SUBSEQUENCE is kept (siblings dropped before,
+    between and after the kept ones), then most identifiers are replaced by placeholders (so a placeholder
+    usually occurs in several kept statements), then 0-2 sub-expressions become ___ / __e__."""
+    dv = _Deriver(rng, code, tree)
+    long_ = [st for st, _ in dv.statements()
+             if any(isinstance(getattr(st, f, None), list) and len(getattr(st, f)) >= 3 and
+                    all(isinstance(s, ast.stmt) for s in getattr(st, f)) for f in ("body", "orelse", "finalbody"))]
+    if long_ and rng.random() < 0.5:
+        dv.take_statement(rng.choice(long_))
+    done = set()
+    while True:
+        todo = [b for b in dv.bodies() if id(b) not in done]
+        if not todo:
+            break
+        b = todo[0]
+        done.add(id(b))
+        if rng.random() < 0.85:
+            k = rng.randint(1, min(len(b), max_keep))
+            dv.keep_subsequence(b, set(rng.sample(range(len(b)), k)))
+    ids = dv.identifiers()
+    chosen = [x for x in ids if rng.random() < 0.6]
+    if ids and not chosen:
+        chosen = [rng.choice(ids)]
+    for x in chosen:
+        dv.step_var(x)
+    for _ in range(rng.choice([0, 0, 0, 1, 1, 2])):
+        dv.step_wild()
+    return dv.finish()
+
+
+def derive_focus(rng, code, tree):
+    """The instructor's pattern for ONE of several look-alike instances: in the longest statement list of the
+    fragment keep the statements that mention one chosen identifier (plus up to two statements that mention none
+    of the rival identifiers), drop all other siblings, and replace the chosen identifier by a placeholder."""
+    dv = _Deriver(rng, code, tree)
+    long_ = [st for st, _ in dv.statements()
+             if any(isinstance(getattr(st, f, None), list) and len(getattr(st, f)) >= 3 and
+                    all(isinstance(s, ast.stmt) for s in getattr(st, f)) for f in ("body", "orelse", "finalbody"))]
+    if long_ and rng.random() < 0.4:
+        dv.take_statement(rng.choice(long_))
+    bodies = dv.bodies(3)
+    if not bodies:
         return None
-    # the text must denote the tree we built (unparse/parse is not always the identity, e.g. for
-    # negative constants or implicit tuples): otherwise this is not a C11-derived pattern
-    if ast.dump(reparsed) != ast.dump(frag):
+    b = max(bodies, key=len)
+
+    def mentions(st):
+        return {n.id for n in ast.walk(st) if isinstance(n, ast.Name)}
+    per = [mentions(st) for st in b]
+    count = {}
+    for m in per:
+        for x in m:
+            count[x] = count.get(x, 0) + 1
+    rivals = sorted(x for x, n in count.items() if n >= 2 and not x.startswith("_"))
+    if not rivals:
         return None
-    # which program node every pattern node stands for (the alignment the C11 theorem's checker is given)
-    align = []
-    try:
-        if frag is work:
-            align_trees(frag, tree, (), (), orig_of, placeholders, align)
+    v = rng.choice(rivals)
+    others = set(rivals) - {v}
+    keep = {i for i, m in enumerate(per) if v in m and (not (m & others) or rng.random() < 0.3)}
+    neutral = [i for i, m in enumerate(per) if v not in m and not (m & others)]
+    rng.shuffle(neutral)
+    keep |= set(neutral[:rng.choice([0, 1, 1, 2])])
+    if not keep:
+        return None
+    if len(keep) > 5:
+        keep = set(sorted(keep)[:5])
+    dv.keep_subsequence(b, keep)
+    dv.step_var(v)
+    if rng.random() < 0.3:
+        dv.step_var()
+    if rng.random() < 0.25:
+        dv.step_wild()
+    return dv.finish()
+
+
+def derive_keep(code, tree, keep, names, rng=None):
+    """deterministic derivation: in the longest statement list of the program keep the statements with index in
+    `keep`, then replace the identifiers `names` by placeholders"""
+    dv = _Deriver(rng, code, tree)
+    bodies = dv.bodies(2)
+    if not bodies:
+        return None
+    dv.keep_subsequence(max(bodies, key=len), set(keep))
+    for x in names:
+        dv.step_var(x)
+    return dv.finish()
+
+
+def merges(seqs):
+    """all interleavings of the sequences that keep each sequence's own order"""
+    seqs = [s for s in seqs if s]
+    if not seqs:
+        yield []
+        return
+    for i, s in enumerate(seqs):
+        rest = seqs[:i] + [s[1:]] + seqs[i + 1:]
+        for tail in merges(rest):
+            yield [s[0]] + tail
+
+
+def decoy_scope(rng, n_templates, wraps=("{B}",)):
+    """Small-scope EXHAUSTIVE arrangements: a template of slot statements, one instance per identifier, optional
+    fixed statements; EVERY order-keeping interleaving is a program; for every instance the pattern that keeps this
+    instance (and the fixed statements) with its identifier replaced by a placeholder, and the pattern that keeps
+    everything with both identifiers replaced.  Yields (program, Derived)."""
+    simple = [x for x in DECOY_SLOT if "\n" not in x and not x.startswith("return")]
+    for t in range(n_templates):
+        if t % 2 == 0:
+            shapes, n_fixed, ids = rng.sample(simple, 2), 1, ["a", "b"]
         else:
-            for i, st in enumerate(frag.body):
-                o = orig_of[id(st)]
-                align_trees(st, o, (i,), opath[id(o)], orig_of, placeholders, align)
-    except (AlignError, KeyError):
-        align = None
-    return Derived(code, pattern, exps, vars_, steps, base, align)
+            shapes, n_fixed, ids = rng.sample(simple, 3), 0, ["a", "b"]
+        if t % 5 == 4:
+            shapes, n_fixed, ids = rng.sample(simple, 2), 0, ["a", "b", "t"]
+        w, k, f = rng.choice(["w", "a"]), rng.choice(["0", "1", "''"]), rng.choice(["f", "g"])
+        inst = {v: [sh.format(v=v, w=w, k=k, f=f) for sh in shapes] for v in ids}
+        fixed = [rng.choice(DECOY_FIXED[:5]) for _ in range(n_fixed)]
+        wrap = wraps[t % len(wraps)]
+        for order in merges([[(v, x) for x in inst[v]] for v in ids] + [[(None, x) for x in fixed]]):
+            flat = "".join(x + "\n" for _, x in order)
+            code = wrap.format(B=flat, I=_indent(flat, 1), II=_indent(flat, 2))
+            try:
+                tree = ast.parse(code)
+            except SyntaxError:
+                continue
+            for v in ids:
+                keep = [i for i, (o, _) in enumerate(order) if o in (v, None)]
+                names = [v] if w != v else [v]
+                d = derive_keep(code, tree, keep, names)
+                if d is not None:
+                    yield code, d
+                if n_fixed and rng.random() < 0.3:
+                    d = derive_keep(code, tree, [i for i, (o, _) in enumerate(order) if o == v], [v])
+                    if d is not None:
+                        yield code, d
+            if rng.random() < 0.15:
+                d = derive_keep(code, tree, range(len(order)), ids)
+                if d is not None:
+                    yield code, d
 
 
 def mutate_pattern(rng, pattern):
